@@ -147,7 +147,7 @@ def last_simulation_state(path, crosscheck=False):
 
 
 def from_state(f):
-    for k in ("chals", "ops", "corpora", "indices", "streams", "supN", "supS", "parts"):
+    for k in ("chals", "ops", "corpora", "indices", "streams", "supN", "supS", "parts", "refs"):
         if not isinstance(f[k], list):
             raise tlc.MachineryError("trackgen: unexpected value for %s in TLC state: %r" % (k, f[k]))
     return f
@@ -310,6 +310,9 @@ def render(F, root, style=None):
         top["version"] = 2
     if style["descriptions"]:
         top["description"] = "generated by the C10 check"
+    if F["refs"]:
+        # references to Rally's own template variables (inside a string: their values are not JSON numbers)
+        top["description"] = Raw('"refers to %s"' % " ".join("{{ %s }}" % q for q in F["refs"]))
     if F["indices"]:
         top["indices"] = [{"name": n} for n in F["indices"]]
     if F["streams"]:
@@ -651,7 +654,7 @@ def _rand_task(rnd, types, opnames, mode, par_mode, noisy):
 def random_file(rnd, types):
     """A random abstract file; mostly valid structure, then with probability 1/2 one random small mutation."""
     noisy = rnd.choice([0.0, 0.0, 0.1, 0.3])
-    F = {"form": rnd.choice(["schedule", "challenge", "challenges", "challenges"]), "chals": [], "ops": [], "corpora": [], "indices": [], "streams": [], "supN": [], "supS": [], "parts": [], "tight": False, "defect": dict(NODEFECT)}
+    F = {"form": rnd.choice(["schedule", "challenge", "challenges", "challenges"]), "chals": [], "ops": [], "corpora": [], "indices": [], "streams": [], "supN": [], "supS": [], "parts": [], "refs": [], "tight": False, "defect": dict(NODEFECT)}
     opnames = []
     for _ in range(rnd.choice([0, 1, 2, 3])):
         name = rnd.choice(NAMES[:5]) if rnd.random() < noisy else "op%d" % (len(opnames) + 1)
@@ -740,6 +743,8 @@ def random_file(rnd, types):
         if present and rnd.random() < 0.3:
             F["parts"].append(k)
     F["tight"] = bool(F["parts"]) and rnd.random() < 0.25
+    if rnd.random() < 0.1:
+        F["refs"] = rnd.sample(["now", "build_flavor", "serverless_operator"], rnd.randint(1, 2))
     if rnd.random() < 0.5:
         _mutate(rnd, F)
     return F
@@ -756,6 +761,7 @@ def _used_params(F):
     used.update(o["bulk"]["p"] for o in F["ops"])
     for k in F["corpora"]:
         used.update(d["count"]["p"] for d in k["docs"])
+    used.update(F["refs"])
     used.discard("")
     return used
 
@@ -793,8 +799,11 @@ def _mutate(rnd, F):
     elif m == "unused":
         F["supN"].append({"p": "unused_param", "v": 1})
     elif m == "reserved":
-        if not any(s["p"] == "now" for s in F["supN"]):
-            F["supN"].append({"p": rnd.choice(["now", "glob", "build_flavor", "serverless_operator"]), "v": 1})
+        if not any(s["p"] in ("now", "glob", "build_flavor", "serverless_operator") for s in F["supN"]):
+            q = rnd.choice(["now", "glob", "build_flavor", "serverless_operator"])
+            F["supN"].append({"p": q, "v": 1})
+            if rnd.random() < 0.6:
+                F["refs"].append(q)
     elif m == "zero":
         t[rnd.choice(["clients", "it", "tp"])] = {"v": 0, "p": ""}
     elif m == "dupop" and F["ops"]:
@@ -827,7 +836,7 @@ def _mutate(rnd, F):
 
 
 def size(F):
-    n = len(F["ops"]) + len(F["indices"]) + len(F["streams"]) + len(F["supN"]) + len(F["supS"]) + len(F["parts"]) + (F["defect"]["k"] != "none")
+    n = len(F["ops"]) + len(F["indices"]) + len(F["streams"]) + len(F["supN"]) + len(F["supS"]) + len(F["parts"]) + len(F["refs"]) + (F["defect"]["k"] != "none")
     n += sum(len(k["docs"]) for k in F["corpora"])
     for ch in F["chals"]:
         n += ch["dflt"] != "abs"
